@@ -9,6 +9,10 @@
 //   TP b  TR  AR lo hi  RY lo hi idx  RA a  RD lo hi  T t  GP k  GC  GS
 //   DP cid sid key  DC key  TC  TS  QR oor a b          (step worker; T is the real node.tick)
 //   QS b                      the shard enters (1) / leaves (0) the quiesced state
+//   PS cid reg key to pick  PB cid sid key to   session register/unregister request; oversized payload
+//   HR lo   PR lo hi idx a [fast lastCommitted]   AU cid sid key v rej idx ign   NG   XN    the real node.handleReadIndex,
+//        node.processReadyToRead, node.ApplyUpdate(notifyRead), node.gc, node.close
+//   (P R C S Q AP DP DC RD CP CC T go through the real node.go functions as well)
 //   AP cid sid key v rej  CA key rej  SA key ign abo idx (apply worker)
 //   CP cid sid key  CC key  CB cid sid key  CF           (commit worker; CB/CF = the two halves of
 //                                                          proposalShard.committed, replay only)
@@ -72,6 +76,8 @@ type world struct {
 	lqOut     bool
 	assumeBad bool // the case itself broke an environment assumption (double close ...)
 	clockStuck string
+	apiBad     string
+	ctxMap     map[string][2]uint64
 	earlyEnqueue string
 	committed map[string]bool
 }
@@ -118,7 +124,7 @@ func panicCode(p string) int {
 func newWorld(head string) *world {
 	w := &world{ps: 1, chanOwner: map[chan dragonboat.RequestResult]int{}, ccKey: map[uint64]uint64{},
 		ssKey: map[uint64]uint64{}, closed: map[string]bool{}, oplog: map[string]bool{},
-		ready: map[string]uint64{}, readyOK: map[string]bool{}, committed: map[string]bool{}}
+		ctxMap: map[string][2]uint64{}, ready: map[string]uint64{}, readyOK: map[string]bool{}, committed: map[string]bool{}}
 	pq, rq := uint64(8), uint64(8)
 	for _, f := range strings.Fields(head) {
 		kv := strings.SplitN(f, "=", 2)
@@ -214,7 +220,8 @@ func (w *world) doOp(f []string) string {
 	switch f[0] {
 	case "P":
 		cid, sid, key, to := u(f[1]), u(f[2]), u(f[3]), u(f[4])
-		rs, err := v.Propose(cid, sid, key, to)
+		// node.propose with a payload of 0..2 bytes (plain / encoded entry)
+		rs, err := v.NodePropose(cid, sid, 0, key, to, make([]byte, key%3))
 		code := dragonboat.VerifC12ErrCode(err)
 		if to == 0 {
 			return fmt.Sprintf("P-:%d", code)
@@ -222,9 +229,34 @@ func (w *world) doOp(f []string) string {
 		r := w.accept('P', rs, err == nil, to)
 		r.nc, r.cid, r.sid, r.key = w.nc, cid, sid, key
 		return fmt.Sprintf("P%d:%d", len(w.reqs)-1, code)
+	case "PS":
+		// node.proposeSession: register (1) / unregister (0) a client session
+		cid, reg, key, to := u(f[1]), f[2] == "1", u(f[3]), u(f[4])
+		sid := uint64(1<<64 - 1)
+		if reg {
+			sid = 1<<64 - 2
+		}
+		rs, err := v.NodeProposeSession(cid, reg, key, to)
+		code := dragonboat.VerifC12ErrCode(err)
+		if to == 0 {
+			return fmt.Sprintf("PS-:%d", code)
+		}
+		r := w.accept('P', rs, err == nil, to)
+		r.nc, r.cid, r.sid, r.key = w.nc, cid, sid, key
+		return fmt.Sprintf("PS%d:%d", len(w.reqs)-1, code)
+	case "PB":
+		// node.propose refuses a payload above Config.MaxInMemLogSize before anything is allocated
+		cid, sid, key, to := u(f[1]), u(f[2]), u(f[3]), u(f[4])
+		v.SetMaxInMemLogSize(1024)
+		rs, err := v.NodePropose(cid, sid, 0, key, to, make([]byte, 2048))
+		v.SetMaxInMemLogSize(0)
+		if rs != nil || err != dragonboat.ErrPayloadTooBig {
+			w.apiBad = fmt.Sprintf("node.propose accepted a 2048 byte payload with MaxInMemLogSize 1024 (err %v)", err)
+		}
+		return "PB-:9"
 	case "R":
 		to := u(f[1])
-		rs, err := v.Read(to)
+		rs, err := v.NodeRead(to)
 		code := dragonboat.VerifC12ErrCode(err)
 		if to == 0 {
 			return fmt.Sprintf("R-:%d", code)
@@ -239,9 +271,9 @@ func (w *world) doOp(f []string) string {
 		var rs *dragonboat.RequestState
 		var err error
 		if f[0] == "C" {
-			rs, err = v.RequestConfigChange(to)
+			rs, err = v.NodeRequestConfigChange(to)
 		} else {
-			rs, err = v.RequestSnapshot(to)
+			rs, err = v.NodeRequestSnapshot(to)
 		}
 		code := dragonboat.VerifC12ErrCode(err)
 		if err != nil {
@@ -257,7 +289,7 @@ func (w *world) doOp(f []string) string {
 		}
 		return fmt.Sprintf("%s%d:0", f[0], len(w.reqs)-1)
 	case "Q":
-		rs, err := v.QueryRaftLog(1, 2)
+		rs, err := v.NodeQueryRaftLog(1, 2)
 		if err != nil {
 			return fmt.Sprintf("Q-:%d", dragonboat.VerifC12ErrCode(err))
 		}
@@ -299,9 +331,57 @@ func (w *world) doOp(f []string) string {
 			w.taken = nil
 		}
 		v.AddReads(u(f[1]), u(f[2]))
+	case "HR":
+		// the real node.handleReadIndex: queue get, fresh ctx (random low, high = tick+30), add, raft ReadIndex
+		if v.Taken() > 0 {
+			return "HR" // the step worker is inside an explicit TR .. AR
+		}
+		lo, hi, ok := v.NodeHandleReadIndex()
+		name := fmt.Sprintf("%s %d", f[1], w.tick+30)
+		if ok {
+			w.ctxMap[name] = [2]uint64{lo, hi}
+			if hi != w.tick+30 {
+				w.apiBad = fmt.Sprintf("handleReadIndex created a ctx with High %d at tick %d", hi, w.tick)
+			}
+		}
+		for _, i := range w.queued {
+			w.reqs[i].ctx = name
+		}
+		w.queued = nil
+		// the ctx is also the hint raft matches heartbeat responses with, across replicas: ctxs drawn by
+		// different tables (other replicas, this replica after a restart) at the same tick must differ
+		seen := map[[2]uint64]string{}
+		for n, c := range w.ctxMap {
+			seen[c] = "this node (" + n + ")"
+		}
+		for t := 0; t < 2; t++ {
+			for _, c := range dragonboat.VerifC12FreshReadCtxs(w.tick, 2) {
+				if who, dup := seen[c]; dup {
+					w.apiBad = fmt.Sprintf("read index ctx {%d %d} generated twice: by %s and by a fresh pendingReadIndex table %d", c[0], c[1], who, t)
+				}
+				seen[c] = fmt.Sprintf("fresh table %d", t)
+			}
+		}
 	case "RY":
-		v.AddReady(u(f[1]), u(f[2]), u(f[3]))
+		lo, hi := w.ctx(f[1], f[2])
+		v.AddReady(lo, hi, u(f[3]))
 		w.ready[f[1]+" "+f[2]] = u(f[3])
+	case "PR":
+		// node.processReadyToRead(ud): addReady(ud.ReadyToReads) ; applied(ud.LastApplied)
+		lo, hi := w.ctx(f[1], f[2])
+		w.ready[f[1]+" "+f[2]] = u(f[3])
+		a := u(f[4])
+		for c, idx := range w.ready {
+			if idx > 0 && idx <= a {
+				w.readyOK[c] = true
+			}
+		}
+		if len(f) >= 7 {
+			// fast-apply update whose committed entries (up to f[6]) are only queued for the apply worker
+			v.NodeProcessReadyToReadUpdate(lo, hi, u(f[3]), a, f[5] == "1", u(f[6]))
+		} else {
+			v.NodeProcessReadyToRead(lo, hi, u(f[3]), a)
+		}
 	case "RA":
 		a := u(f[1])
 		for c, idx := range w.ready {
@@ -312,7 +392,8 @@ func (w *world) doOp(f []string) string {
 		v.ReadsApplied(a)
 	case "RD":
 		w.oplog["RD "+f[1]+" "+f[2]] = true
-		v.ReadsDropped(u(f[1]), u(f[2]))
+		lo, hi := w.ctx(f[1], f[2])
+		v.NodeDroppedReadIndex(lo, hi)
 	case "T":
 		w.tick = u(f[1])
 		if w.tick > w.maxTick {
@@ -330,6 +411,8 @@ func (w *world) doOp(f []string) string {
 	case "QS":
 		// the shard becomes quiesced / active again; invisible to the request tables
 		v.SetQuiesced(f[1] == "1")
+	case "NG":
+		v.NodeGc() // node.gc(): every proposal shard, config change, snapshot - once per node tick
 	case "GP":
 		v.GcProposals(u(f[1]))
 	case "GC":
@@ -338,10 +421,10 @@ func (w *world) doOp(f []string) string {
 		v.GcSnapshot()
 	case "DP":
 		w.oplog[strings.Join(f, " ")] = true
-		v.DroppedProposal(u(f[1]), u(f[2]), u(f[3]))
+		v.NodeDroppedProposal(u(f[1]), u(f[2]), u(f[3]))
 	case "DC":
 		w.oplog[strings.Join(f, " ")] = true
-		v.DroppedConfigChange(w.real(w.ccKey, u(f[1])))
+		v.NodeDroppedConfigChange(w.real(w.ccKey, u(f[1])))
 	case "TC":
 		v.TakeConfigChange()
 	case "TS":
@@ -352,27 +435,61 @@ func (w *world) doOp(f []string) string {
 		w.lqOut = false
 	case "AP":
 		w.oplog[strings.Join(f, " ")] = true
-		v.Applied(u(f[1]), u(f[2]), u(f[3]), u(f[4]), f[5] == "1")
+		v.NodeApplyUpdate(u(f[1]), u(f[2]), u(f[3]), 1, u(f[4]), f[5] == "1", false, false)
+	case "AU":
+		// node.ApplyUpdate with notifyRead: AU cid sid key v rej idx ign
+		idx, ign := u(f[6]), f[7] == "1"
+		if !ign {
+			w.oplog["AP "+strings.Join(f[1:6], " ")] = true
+		}
+		for c, i := range w.ready {
+			if i > 0 && i <= idx {
+				w.readyOK[c] = true
+			}
+		}
+		v.NodeApplyUpdate(u(f[1]), u(f[2]), u(f[3]), idx, u(f[4]), f[5] == "1", ign, true)
 	case "CA":
 		w.oplog[strings.Join(f, " ")] = true
 		v.ConfigChangeApplied(w.real(w.ccKey, u(f[1])), f[2] == "1")
 	case "SA":
 		w.oplog[strings.Join(f, " ")] = true
-		v.SnapshotApplied(w.real(w.ssKey, u(f[1])), f[2] == "1", f[3] == "1", u(f[4]))
+		if f[2] == "1" && f[3] == "0" {
+			v.NodeIgnoredSnapshotRequest(w.real(w.ssKey, u(f[1]))) // node.reportIgnoredSnapshotRequest
+		} else {
+			v.SnapshotApplied(w.real(w.ssKey, u(f[1])), f[2] == "1", f[3] == "1", u(f[4]))
+		}
 	case "CP":
 		k := "P " + f[3]
 		if w.committed[k] {
 			w.assumeBad = true
 		}
 		w.committed[k] = true
-		v.CommittedProposal(u(f[1]), u(f[2]), u(f[3]))
+		v.NodeCommitted(false, u(f[1]), u(f[2]), u(f[3]))
 	case "CC":
 		k := "C " + f[1]
 		if w.committed[k] {
 			w.assumeBad = true
 		}
 		w.committed[k] = true
-		v.CommittedConfigChange(w.real(w.ccKey, u(f[1])))
+		v.NodeCommitted(true, 0, 0, w.real(w.ccKey, u(f[1])))
+	case "XN":
+		// the real node.close()
+		for _, name := range []string{"XR", "XC", "XS", "XL"} {
+			if w.closed[name] {
+				w.assumeBad = true
+			}
+			w.closed[name] = true
+		}
+		for k := uint64(0); k < w.ps; k++ {
+			name := fmt.Sprintf("XP %d", k)
+			if w.closed[name] {
+				w.assumeBad = true
+			}
+			w.closed[name] = true
+		}
+		w.closedAny = true
+		w.queued = nil
+		v.NodeClose()
 	case "XQ":
 		// a propose() is held before its first shard-lock section (the harness owns the lock and
 		// looks whether the entry is already queued while the request is not yet registered), then
@@ -429,6 +546,14 @@ func (w *world) doOp(f []string) string {
 		panic("unknown op " + f[0])
 	}
 	return f[0]
+}
+
+// ctx translates the ctx named in the case to the one the real handleReadIndex drew
+func (w *world) ctx(lo, hi string) (uint64, uint64) {
+	if c, ok := w.ctxMap[lo+" "+hi]; ok {
+		return c[0], c[1]
+	}
+	return u(lo), u(hi)
 }
 
 func (w *world) real(m map[uint64]uint64, k uint64) uint64 {
@@ -498,11 +623,7 @@ func (w *world) finale() string {
 		v.AddReads(1<<63+1, t+30)
 		v.TakeReads()
 		v.AddReads(1<<63+2, t+30)
-		for k := uint64(0); k < w.ps; k++ {
-			v.GcProposals(k)
-		}
-		v.GcConfigChange()
-		v.GcSnapshot()
+		v.NodeGc() // node.gc(): all proposal shards, config change, snapshot
 		v.ReadsApplied(0)
 		if v.Sizes()[7] == 1 {
 			v.LogQueryReturned(false, 1, 2)
@@ -694,6 +815,9 @@ func runCase(line string, st *vh.Stats) string {
 		// ---- property monitor (implementation alone) ----
 		if w.clockStuck != "" {
 			st.Violation(id, w.clockStuck)
+		}
+		if w.apiBad != "" {
+			st.Violation(id, w.apiBad)
 		}
 		if w.earlyEnqueue != "" {
 			st.Violation(id, w.earlyEnqueue)
